@@ -255,6 +255,7 @@ func runC09(c *Ctx) {
 	c.Borrow(runC11, "C11-R1", "C09-R2", func(k string) bool {
 		return strings.HasPrefix(k, "Update-success-returns-Commit-result") || strings.HasPrefix(k, "Update-returns-function-error")
 	})
+	checkInvalidationAlwaysEvicts(c, "C09-R2")
 }
 
 // C09-R2 / R3: callback placement and single entry.
